@@ -7,11 +7,11 @@ if [ -n "$(git -C /repo status --porcelain)" ]; then echo "refusing: /repo has u
 bad=0
 for d in seeded/*; do
   id=$(basename $d); prop=${id%%_*}
-  git -C /repo apply $d/patch.diff || { echo "$id: patch does not apply"; bad=1; continue; }
+  git -C /repo apply $PWD/$d/patch.diff || { echo "$id: patch does not apply"; bad=1; continue; }
   cp evidence/$prop.json /tmp/evidence_keep_$prop.json 2>/dev/null
   out=$(./check $prop 2>&1); rc=$?
   cp /tmp/evidence_keep_$prop.json evidence/$prop.json 2>/dev/null
-  git -C /repo apply -R $d/patch.diff
+  git -C /repo apply -R $PWD/$d/patch.diff
   if [ $rc -eq 1 ] && echo "$out" | grep -q "^VIOLATION property=$prop"; then echo "$id: caught ($(echo "$out" | grep -c '^VIOLATION') violation lines)"; else echo "$id: NOT CAUGHT (rc=$rc)"; bad=1; fi
 done
 # and the unchanged tree must be quiet
